@@ -79,9 +79,23 @@ pub fn serialize_wire(kind: RKind, wire: &V) -> Result<Vec<u8>, String> {
     })
 }
 
+/// what the encoder must emit for a generated response tree: the tree itself, minus the
+/// relying-party icon placeholder (documented: accepted on input, never re-emitted)
+pub fn expected_wire(wire: &V) -> V {
+    match wire {
+        V::M(m) => {
+            let is_rp = m.iter().any(|(k, v)| *k == V::t("id") && matches!(v, V::T(_)));
+            V::M(m.iter().filter(|(k, _)| !(is_rp && *k == V::t("icon"))).map(|(k, v)| (k.clone(), expected_wire(v))).collect())
+        }
+        V::A(a) => V::A(a.iter().map(expected_wire).collect()),
+        other => other.clone(),
+    }
+}
+
 /// C02 oracle: status byte, one map, members = specification tree (unordered), no null,
 /// empty collapse.
 pub fn check_members(prop: &str, kind: RKind, wire: &V, bytes: &[u8]) -> Verdict {
+    let wire = &expected_wire(wire);
     let sig = |w: String| format!("{}|{}|{}", prop, kind.name(), w);
     let want_hex = {
         let mut m = vec![0u8];
